@@ -196,7 +196,7 @@ const (
 	//   0123456789abcdef0123456789abcdef
 	intMode = "" +
 		".........II..I.................." + // 0x00
-		"I.......II.a.a..aaaaaaaaaa......" + // 0x20
+		"I.......II.a.a.aaaaaaaaaaa......" + // 0x20
 		".aaaaaaaaaaaaaaaaaaaaaaaaaa....." + // 0x40
 		".aaaaaaaaaaaaaaaaaaaaaaaaaa......" + // 0x60
 		"................................" + // 0x80
@@ -1120,7 +1120,21 @@ func (r *reader) pushChar(src []byte) {
 func (r *reader) pushInteger(src []byte) {
 	token := string(r.makeToken(src))
 	var obj Object
-	if i, err := strconv.ParseInt(token, r.base, 64); err == nil {
+	if i := strings.IndexByte(token, '/'); 0 <= i {
+		// A ratio such as #x2/3 or #3r2/10.
+		var (
+			num big.Int
+			den big.Int
+		)
+		if _, ok := num.SetString(token[:i], r.base); ok {
+			if _, ok = den.SetString(token[i+1:], r.base); ok && 0 < den.Sign() {
+				obj = NewBigRatio(&num, &den)
+			}
+		}
+		if obj == nil {
+			r.raise("%s is not a valid base %d ratio", token, r.base)
+		}
+	} else if i, err := strconv.ParseInt(token, r.base, 64); err == nil {
 		obj = Fixnum(i)
 	} else {
 		bi := big.NewInt(0)
